@@ -110,7 +110,9 @@ def check_read(job):
 
 
 # --------------------------------------------------------------------------------------- writes
-def build_write_design(tgt, vsigned, vw):
+def build_write_design(tgt, vsigned, vw, row=None):
+    """The circuit assignment target.eq(v).  With `row`, that leaf is ALSO present as row 1 of a memory of the same shape, and
+    `target_tb` is the same target expression built over the memory row (a row is assignable from testbenches only)."""
     from amaranth.hdl import Module, Signal, ClockDomain, Shape
     leaves = T.collect(tgt)
     sigs = {n: Signal(Shape(w, s), name=n) for n, (w, s) in leaves.items()}
@@ -119,31 +121,49 @@ def build_write_design(tgt, vsigned, vw):
     m = Module()
     m.domains.sync = cd = ClockDomain(reset_less=True)
     m.d.sync += target.eq(v)
-    return m, sigs, target, v, cd
+    if row is None:
+        return m, sigs, target, v, cd
+    from amaranth.hdl._mem import MemoryData
+    from amaranth.lib.memory import Memory
+    w, sgn = leaves[row]
+    md = MemoryData(shape=Shape(w, sgn), depth=2, init=[0, 0])
+    m.submodules.mem = mem = Memory(data=md)
+    rp = mem.read_port(domain="comb")
+    ra, rd = Signal(1, name="ra_"), Signal(Shape(w, sgn), name="rd_")
+    m.d.comb += [rp.addr.eq(ra), rd.eq(rp.data)]
+    tb_sigs = dict(sigs)
+    tb_sigs[row] = md[1]
+    return m, sigs, target, v, cd, md, T.build(tgt, tb_sigs)
 
 
-def concrete_write(tgt, vsigned, vw, state, value):
+def concrete_write(tgt, vsigned, vw, state, value, row=None):
     """Replay on the unmodified simulator: returns (after circuit edge, after ctx.set)."""
     from amaranth.sim import Simulator, Period
     out = []
     with symsim.real_states():
         for mode in ("circuit", "testbench"):
-            m, sigs, target, v, cd = build_write_design(tgt, vsigned, vw)
+            md = None
+            if row is None:
+                m, sigs, target, v, cd = build_write_design(tgt, vsigned, vw)
+            else:
+                m, sigs, target, v, cd, md, target_tb = build_write_design(tgt, vsigned, vw, row)
             sim = Simulator(m)
             sim.add_clock(Period(MHz=1))
             got = {}
 
-            async def tb(ctx, mode=mode, sigs=sigs, target=target, v=v, got=got):
+            async def tb(ctx, mode=mode, sigs=sigs, target=target, v=v, got=got, md=md):
                 for n, s in sigs.items():
                     if len(s):
                         ctx.set(s, state.get(n, 0))
+                if md is not None and len(sigs[row]):
+                    ctx.set(md[1], state.get(row, 0))
                 if mode == "circuit":
                     ctx.set(v, value)
                     await ctx.tick()
                 else:
-                    ctx.set(target, value)
+                    ctx.set(target if md is None else target_tb, value)
                 for n, s in sigs.items():
-                    got[n] = ctx.get(s)
+                    got[n] = ctx.get(md[1]) if (md is not None and n == row and mode == "testbench") else ctx.get(s)
             sim.add_testbench(tb)
             sim.run()
             out.append(got)
@@ -152,14 +172,19 @@ def concrete_write(tgt, vsigned, vw, state, value):
 
 def check_write(job):
     tgt, vsigned = job["tgt"], job["vsigned"]
-    text = T.show(tgt) + (" <= signed v" if vsigned else " <= unsigned v")
+    row = job.get("row")
+    text = T.show(tgt) + (" <= signed v" if vsigned else " <= unsigned v") + (f"   [leaf {row} is a memory row on the testbench side]" if row else "")
     res = {"id": job["id"], "kind": "write", "program": text, "nontrivial": True,
            "assertion": "slots after eval_assign(target, v) == slots after the circuit assignment target.eq(v) at an edge"}
     vw = T.width_of(tgt) + 2
     try:
         with warnings.catch_warnings():
             warnings.simplefilter("ignore")
-            m, sigs, target, v, cd = build_write_design(tgt, vsigned, vw)
+            md = target_tb = None
+            if row is None:
+                m, sigs, target, v, cd = build_write_design(tgt, vsigned, vw)
+            else:
+                m, sigs, target, v, cd, md, target_tb = build_write_design(tgt, vsigned, vw, row)
             sim = symsim.SymSim(m)
     except (TypeError, IndexError, ValueError, SyntaxError) as ex:
         return [dict(res, status="skipped", detail=f"{type(ex).__name__}: {ex}")]
@@ -179,10 +204,12 @@ def check_write(job):
         sim.reset()
         sim.sym_state("v")
         val = sim.value(v)
+        if md is not None:
+            sim.mem_slot(md).data[1] = sim.value(sigs[row])      # the row starts with the same (symbolic) value as the signal
         sim.settle()
-        sim.engine.set_value(target, val)
+        sim.engine.set_value(target if md is None else target_tb, val)
         sim.engine.step_design()
-        return {n: sim.value(s) for n, s in sigs.items()}
+        return {n: (sim.mem_slot(md).data[1] if (md is not None and n == row) else sim.value(s)) for n, s in sigs.items()}
 
     cpaths = explore(circuit, max_paths=4)
     if len(cpaths) != 1 or cpaths[0].exc is not None:
@@ -215,7 +242,7 @@ def check_write(job):
             mdl = s.model()
             st = {n: eval_in_model(mdl, x) for n, x in env.items()}
             vv = eval_in_model(mdl, val)
-            real_c, real_t = concrete_write(tgt, vsigned, vw, st, vv)
+            real_c, real_t = concrete_write(tgt, vsigned, vw, st, vv, row)
             cex = {"state": st, "value": vv, "after_circuit": real_c, "after_ctx_set": real_t}
             if real_c != real_t:
                 status = VIOLATION
@@ -227,7 +254,7 @@ def check_write(job):
     res.update(status=status, detail=detail, cex=cex)
     if status == VIOLATION:
         res["signature"] = {"kind": "write", "shape": _shape_of(tgt), "program": text}
-        res["replay"] = {"what": "write", "tgt": tgt, "vsigned": vsigned, "vw": vw, "state": cex["state"], "value": cex["value"]}
+        res["replay"] = {"what": "write", "tgt": tgt, "vsigned": vsigned, "vw": vw, "state": cex["state"], "value": cex["value"], "row": row}
     return [res]
 
 
@@ -249,13 +276,45 @@ def replay(path):
     with open(path) as f:
         d = json.load(f)
     r = d["replay"]
+    if r.get("what") in ("memory", "signal"):
+        from vlib import hstate_proof
+        return hstate_proof.replay(r)
     if r["what"] == "read":
         real = c01.concrete_sim_value(r["prog"], r["inputs"])
         print(f"{G.show(r['prog'])} inputs {r['inputs']}: circuit {real['o']}, ctx.get {real['e']}")
         return 1 if real["o"] != real["e"] else 0
-    c, t = concrete_write(r["tgt"], r["vsigned"], r["vw"], r["state"], r["value"])
+    c, t = concrete_write(r["tgt"], r["vsigned"], r["vw"], r["state"], r["value"], r.get("row"))
     print(f"{T.show(r['tgt'])} state {r['state']} value {r['value']}: circuit -> {c}, ctx.set -> {t}")
     return 1 if c != t else 0
+
+
+def _is_base_leaf(t, name):
+    """The leaf occurs as a written base (not as an index of a part-select / array)."""
+    k = t[0]
+    if k == "sig":
+        return t[1] == name
+    if k in ("slice", "as_signed", "as_unsigned"):
+        return _is_base_leaf(t[1], name)
+    if k in ("bit_select", "word_select"):
+        return _is_base_leaf(t[1], name) and not _mentions(t[2], name)
+    if k == "cat":
+        return any(_is_base_leaf(p, name) for p in t[1]) and all(_is_base_leaf(p, name) or not _mentions(p, name) for p in t[1])
+    if k == "array":
+        return any(_is_base_leaf(p, name) for p in t[1]) and not _mentions(t[2], name)
+    return False
+
+
+def _mentions(t, name):
+    return name in T.collect(t)
+
+
+def row_twice_targets():
+    m8 = ["sig", "m", 8, False]
+    k = ["sig", "k", 2, False]
+    return [["cat", [["slice", m8, 4, 8], ["slice", m8, 0, 4]]],
+            ["cat", [["slice", m8, 0, 3], ["sig", "x", 2, False], ["slice", m8, 3, 8]]],
+            ["cat", [["bit_select", m8, k, 2], ["slice", m8, 6, 8]]],
+            ["slice", ["cat", [["slice", m8, 2, 6], ["slice", m8, 0, 2]]], 1, 5]]
 
 
 def twin_checks(rep):
@@ -302,7 +361,7 @@ def main(tier, seed):
             jobs.append({"id": f"{tag}-{len(jobs):05d}", "what": "read", "prog": p})
     for p in G.depth1(W, aW):
         add(p, "rd1")
-    for p in G.depth2(full=(tier != "quick")):
+    for p in G.depth2(full=(tier != "quick")) + G.extension_programs():
         add(p, "rd2")
     gen = G.RandomExprs(seed + 1, W, aW)
     for i in range(nrand):
@@ -320,11 +379,24 @@ def main(tier, seed):
                 continue
             tseen.add(key)
             jobs.append({"id": f"wr-{len(jobs):05d}", "what": "write", "tgt": t, "vsigned": vs})
+            # the same target with one of its leaves living in a memory row (testbench side)
+            leaves = [n for n, (w_, s_) in T.collect(t).items() if w_ > 0 and _is_base_leaf(t, n)]
+            if leaves and not vs:
+                jobs.append({"id": f"wr-{len(jobs):05d}", "what": "write", "tgt": t, "vsigned": vs, "row": leaves[len(jobs) % len(leaves)]})
+    # one row reached twice by a single write
+    for t in row_twice_targets():
+        jobs.append({"id": f"wr-{len(jobs):05d}", "what": "write", "tgt": t, "vsigned": False, "row": "m"})
     results, stats = run.run_jobs(check_job, jobs, chunksize=4)
     skipped = [r for r in results if r.get("status") == "skipped"]
     results = [r for r in results if r.get("status") != "skipped"]
     rep.extra["unconstructible_programs_skipped"] = len(skipped)
     rep.add(results, stats)
+    # the symbolic runs use the H state classes: their equivalence with the genuine _PySignalState / _PyMemoryState
+    # (masked updates, queued partial row writes, commit) is part of this check's claim
+    from vlib import hstate_proof
+    hjobs = [{"id": f"hstate-{i}", "spec": sp} for i, sp in enumerate(hstate_proof.all_obligations(tier))]
+    hres, hstats = run.run_jobs(hstate_proof.run_one, hjobs)
+    rep.add(hres, hstats)
     twin_checks(rep)
     rep.source_files = FILES
     rep.functions = ["amaranth.sim._pyeval.eval_value", "amaranth.sim._pyeval._eval_matches", "amaranth.sim._pyeval._eval_assign_inner",
